@@ -195,6 +195,9 @@ def write_evidence(ctx, mod, nviol):
 
 
 def run_check(pid, tier, seed, replay=None):
+    import logging
+    logging.getLogger().addHandler(logging.NullHandler())
+    logging.disable(logging.CRITICAL)   # cvise logs through the root logger; the harness observes, it does not print
     mod = importlib.import_module('props.' + pid.lower())
     ctx = Ctx(pid, tier, seed)
     rc = 0
